@@ -168,8 +168,17 @@ func optsGovernLookups(g *Gen, o *Out, n int) {
 		// ---- an unknown value is a no-op when every selector resolves (explicit nils — JSON null —
 		// resolve): quantifier-free combinations of matches over enumerated paths only
 		g.noMutate = true
+		var nilPaths []PathInfo
+		for _, p := range paths {
+			if !unwrapIP(p.Val).IsValid() {
+				nilPaths = append(nilPaths, p) // resolves, to an explicit nil (JSON null)
+			}
+		}
 		for k := 0; k < 6; k++ {
 			var e GExpr = g.genMatch(paths, g.r.Intn(6) == 0)
+			if len(nilPaths) > 0 && g.r.Intn(2) == 0 {
+				e = GMatch{Path: nilPaths[g.r.Intn(len(nilPaths))].Parts, Op: matchOps[g.r.Intn(len(matchOps))], Raw: []string{"x", "0", "", "true", "a.*"}[g.r.Intn(5)], Contains: g.r.Intn(2) == 0}
+			}
 			for d := g.r.Intn(3); d > 0; d-- {
 				switch g.r.Intn(3) {
 				case 0:
@@ -284,11 +293,26 @@ func shapeShiftHistory(g *Gen, o *Out, n int) {
 		}
 		var hist []string
 		for h, hl := 0, 3+g.r.Intn(6); h < hl; h++ {
-			d := data[g.r.Intn(len(data))]
+			di := g.r.Intn(len(data))
 			if g.r.Intn(5) < 3 {
-				d = data[g.r.Intn(6)] // mostly the iterable shapes: list, maps, typed slice, typed map, array
+				di = g.r.Intn(6) // mostly the iterable shapes: list, maps, typed slice, typed map, array
 			}
+			d := data[di]
 			got := safeEvaluate(ev, d)
+			// C05, closed form: `<collPath>.zz <op> lit` is the absent-key table when the value at the path is a
+			// string-keyed map, and an error when it is anything else or the path itself is absent — whatever
+			// shapes the earlier data of this evaluator (or of any other) had at that path
+			if m, isM := e.(GMatch); isM && len(opts) == 0 && len(m.Path) == len(collPath)+1 && m.Path[len(m.Path)-1] == "zz" {
+				want5 := "E"
+				if di < len(variants) {
+					if rv := reflect.ValueOf(variants[di]); rv.IsValid() && rv.Kind() == reflect.Map && rv.Type().Key().Kind() == reflect.String {
+						want5 = absentTable[m.Op]
+					}
+				}
+				if norm(got) != want5 && got != "P" {
+					o.finding(Finding{Property: "C05", Kind: "failing-history", What: fmt.Sprintf("%v %s: %s, documented %s (call %d of a history over data whose value at the parent path changes shape)", m.Path, m.Op, got, want5, h), Request: "eval ( opts ) " + hx(text) + " " + serAny(d) + " ( re )", Detail: text})
+				}
+			}
 			want := evalText(o, opts, text, d)
 			hist = append(hist, got)
 			o.count("shapeshift:" + norm(got))
